@@ -117,6 +117,10 @@ func C01(c *core.Ctx) {
 	if c.HasViolation() || c.Expired() {
 		return
 	}
+	c01pressure(c)
+	if c.HasViolation() || c.Expired() {
+		return
+	}
 	c01sched(c)
 }
 
